@@ -294,6 +294,58 @@ fn invocations(dir: &std::path::Path) -> Vec<Inv> {
             }
         }
     }
+    // every byte value in every spelling of the three radices: as an input flag (rotating over the
+    // flags; every flag sees every value in the zero-padded hex spelling) and as a verify expectation
+    let spell = |v: u8, k: usize| -> String {
+        match k {
+            0 => format!("{}", v),
+            1 => format!("0x{:02x}", v),
+            2 => format!("0x{:X}", v),
+            3 => format!("0b{:08b}", v),
+            4 => format!("0b{:b}", v),
+            _ => format!("0x{:x}", v),
+        }
+    };
+    let flags = ["--fc", "--fd", "--fe", "--ff", "--di1"];
+    let cfg_for = |flag: &str, val: u8| -> (MachineConfig, usize) {
+        let mut cfg = MachineConfig::default();
+        match flag {
+            "--fc" => cfg.input_fc = val,
+            "--fd" => cfg.input_fd = val,
+            "--fe" => cfg.input_fe = val,
+            "--ff" => cfg.input_ff = val,
+            _ => cfg.digital_input1 = val,
+        }
+        (cfg, if flag == "--fe" || flag == "--ff" { 5 } else { 4 })
+    };
+    for v0 in 0..=255u8 {
+        for k in 0..6 {
+            let lit = spell(v0, k);
+            for (fi, flag) in flags.iter().enumerate() {
+                if !(k == 1 || (v0 as usize + k) % flags.len() == fi) {
+                    continue;
+                }
+                let (cfg, p) = cfg_for(flag, v0);
+                v.push(mk(format!("literal {} {}", flag, lit), p, &files[p].1, 60, cfg, vec![flag.to_string(), lit.clone()], vec![], vec![], None));
+            }
+            // as an expectation: program 4 shows FC+FD on FF and DI1 on FE
+            for (vf, inflag) in [("--ff", "--fc"), ("--fe", "--di1")] {
+                for wrong in [false, true] {
+                    if wrong && k != 1 && (v0 as usize + k) % 4 != 0 {
+                        continue;
+                    }
+                    let shown = if wrong { v0 ^ 0x10 } else { v0 };
+                    let (cfg, p) = cfg_for(inflag, shown);
+                    let mut inv = mk(format!("literal verify {} {} (machine shows {})", vf, lit, shown), p, &files[p].1, 60, cfg, vec![inflag.to_string(), shown.to_string()], vec![], vec![], None);
+                    inv.args.extend(["verify".to_string(), vf.to_string(), lit.clone()]);
+                    if let Some(e) = inv.expect.as_mut() {
+                        e.5 = !wrong;
+                    }
+                    v.push(inv);
+                }
+            }
+        }
+    }
     // every budget 0..=40 on every program
     for (p, f) in &files {
         for n in 0..=40usize {
@@ -534,6 +586,7 @@ pub fn run() {
         }
     }
     // ---- process level ----
+    ctx.set("wall_library_level_s", (ctx.elapsed() * 10.0).round() / 10.0);
     let mut nproc = 0u64;
     match std::env::var("VERIF_BIN") {
         Ok(bin) if std::path::Path::new(&bin).exists() => {
@@ -541,7 +594,7 @@ pub fn run() {
             let _ = std::fs::create_dir_all(&dir);
             let mut invs = invocations(&dir);
             if quick {
-                let keep: Vec<Inv> = invs.iter().enumerate().filter(|(i, v)| v.expect.is_none() || i % 3 == 0 || v.name.contains("verify") || v.name.starts_with("--") || v.name.starts_with("board")).map(|(_, v)| v.clone()).collect();
+                let keep: Vec<Inv> = invs.iter().enumerate().filter(|(i, v)| v.expect.is_none() || i % 3 == 0 || v.name.contains("verify") || v.name.starts_with("--") || v.name.starts_with("board") || v.name.starts_with("literal")).map(|(_, v)| v.clone()).collect();
                 invs = keep;
             }
             nproc = invs.len() as u64;
@@ -566,6 +619,7 @@ pub fn run() {
             ctx.violation(k.clone(), format!("{} ({} cases in class)", w, n), l.clone());
         }
     }
+    ctx.set("wall_total_s", (ctx.elapsed() * 10.0).round() / 10.0);
     ctx.set("states", runs);
     ctx.set("transitions", runs + nexp + nproc);
     ctx.set("traces_validated_against_impl", runs + nproc);
